@@ -397,11 +397,25 @@ func (g *j5Gen) fieldType(k *j5Known, depth int, refPrefix string) *jT {
 		n := k.oneofs[g.rng.Intn(len(k.oneofs))]
 		return tRef(kOneof, refPrefix+n, k.pkg+"."+n)
 	case c < 10 && depth < 2:
+		switch g.rng.Intn(5) {
+		case 0:
+			return &jT{Kind: kEnum, Inline: &jDecl{Kind: kEnum, Options: []string{"ON", "OFF", "AUTO"}[:1+g.rng.Intn(3)]}}
+		case 1:
+			d := &jDecl{Kind: kOneof}
+			for _, n := range g.pickNames(1 + g.rng.Intn(2)) {
+				d.Fields = append(d.Fields, fld(n, &jT{Kind: kObject, Inline: &jDecl{Kind: kObject, Fields: []*jF{fld("value", g.scalarType())}}}))
+			}
+			return &jT{Kind: kOneof, Inline: d}
+		}
 		d := &jDecl{Kind: kObject}
 		for _, n := range g.pickNames(g.rng.Intn(3)) {
 			d.Fields = append(d.Fields, fld(n, g.fieldType(k, depth+1, refPrefix)))
 		}
-		return &jT{Kind: kObject, Inline: d}
+		t := &jT{Kind: kObject, Inline: d}
+		if g.rng.Intn(4) == 0 {
+			t.InlineName = "Custom" + j5TypeWords[g.rng.Intn(len(j5TypeWords))]
+		}
+		return t
 	case c < 11 && depth < 2:
 		item := g.fieldType(k, depth+1, refPrefix)
 		for item.Kind == "array" || item.Kind == "map" || item.Kind == "any" {
@@ -437,8 +451,11 @@ func (g *j5Gen) fields(k *j5Known, n int, refPrefix string) []*jF {
 			f.Req = true
 			f.UseMarks = g.rng.Intn(2) == 0
 		case 1:
-			f.Opt = true
-			f.UseMarks = g.rng.Intn(2) == 0
+			// proto3 'optional' does not exist for repeated and map fields
+			if f.T.Kind != "array" && f.T.Kind != "map" {
+				f.Opt = true
+				f.UseMarks = g.rng.Intn(2) == 0
+			}
 		}
 		if g.rng.Intn(5) == 0 {
 			f.Desc = "The " + name + " of it"
